@@ -4,6 +4,7 @@ Theorems about the bookkeeping models KawinV.KWNF (fault path, history alignment
 (recorded statistics) and KawinV.PSD (stored distribution); the solver clock is C05.
 -/
 import KawinV.Model.KWNFault
+import KawinV.Model.KWNStep
 import KawinV.Gen.C03Attrs
 import KawinV.Props.C01
 import KawinV.Props.C02
@@ -205,6 +206,96 @@ theorem recorded_ranges (nElem : Nat) (minDens : α) (p : PhaseIn α)
 
 /-- **PSD ≥ 0 on every step, faulted or not**: the stored distribution is a truncation. -/
 theorem stored_psd_nonneg (x : List α) : ∀ v ∈ trunc x, 0 ≤ v := C02.trunc_nonneg x
+
+/-! ### every step of every run: the composed step model `KawinV.KWN`
+
+`KWN.step` composes the solver update, `_processX`, the mass balance, `UpdatePBMEuler` and the
+optional extension — each piece tied to the code by its own correspondence (C01, C02, C07, C08) —
+with everything the backend, the nucleation model and the step-size rules produce as a universally
+quantified per-step input.  The theorem below is the "for every step of every run, whatever the
+backend returned" statement of C01/C02/C03 in one place. -/
+
+open KawinV.KWN in
+/-- well-formed state: stored populations non-negative, one centre per class -/
+def WF (st : KWN.State α) : Prop :=
+  ∀ s ∈ st.phases, (∀ v ∈ s.psd, 0 ≤ v) ∧ s.psd.length = s.R.length
+
+theorem processX_length (k : Nat) (mr : α) (x R : List α) :
+    (processX k mr x R).length = min x.length R.length := by
+  unfold processX; simp
+
+open KawinV.KWN in
+theorem nextPhase_wf (dt : α) (s : PhaseState α) (i : StepIn α) (h : s.psd.length = s.R.length) :
+    (∀ v ∈ (nextPhase dt s i).psd, 0 ≤ v) ∧ (nextPhase dt s i).psd.length = (nextPhase dt s i).R.length := by
+  unfold nextPhase
+  constructor
+  · intro v hv
+    simp only [List.mem_append, List.mem_replicate] at hv
+    rcases hv with hv | hv
+    · exact C02.trunc_nonneg _ v hv
+    · exact hv.2 ▸ le_refl _
+  · simp only [List.length_append, List.length_replicate, C02.trunc_length]
+    unfold processed
+    rw [processX_length]
+    simp [h]
+
+theorem zipWith_pair_mem_left {β γ : Type} (l : List β) (m : List γ) (a : β) (b : γ)
+    (h : (a, b) ∈ List.zipWith (fun s i => (s, i)) l m) : a ∈ l := by
+  induction l generalizing m with
+  | nil => simp at h
+  | cons x xs ih =>
+    cases m with
+    | nil => simp at h
+    | cons y ys =>
+      simp only [List.zipWith_cons_cons, List.mem_cons, Prod.mk.injEq] at h
+      rcases h with ⟨rfl, _⟩ | h
+      · simp
+      · exact List.mem_cons_of_mem _ (ih ys h)
+
+open KawinV.KWN in
+theorem step_wf (minDens minComp : α) (x0 : List α) (st : State α) (dt : α) (ins : List (StepIn α))
+    (h : WF st) : WF (step minDens minComp x0 st dt ins) := by
+  intro s hs
+  simp only [step, List.mem_map] at hs
+  obtain ⟨⟨s0, i⟩, hp, rfl⟩ := hs
+  have hmem : s0 ∈ st.phases := zipWith_pair_mem_left st.phases ins s0 i hp
+  exact nextPhase_wf dt s0 i (h s0 hmem).2
+
+open KawinV.KWN in
+/-- **every step of every run**: from a well-formed state, after ANY sequence of steps with ANY
+per-step inputs (backend answers, nucleation terms, face fluxes, step sizes, extensions),
+ * the state is well formed (stored distributions non-negative, grids aligned),
+ * every slice recorded by the run is balanced up to the documented clamp (C01),
+ * every recorded volume fraction is at most 1,
+ * and exactly one slice was recorded per step. -/
+theorem run_wellformed (minDens minComp : α) (x0 : List α) (st : State α)
+    (steps : List (α × List (StepIn α))) (h : WF st) :
+    WF (run minDens minComp x0 st steps) ∧
+    (∀ sl ∈ (run minDens minComp x0 st steps).history,
+        sl ∈ st.history ∨ (C01.Balanced x0 minComp sl ∧ ∀ p ∈ sl.phases, p.volFrac ≤ 1)) ∧
+    (run minDens minComp x0 st steps).history.length = st.history.length + steps.length := by
+  induction steps generalizing st with
+  | nil => exact ⟨h, fun sl hsl => Or.inl hsl, by simp [run]⟩
+  | cons sd rest ih =>
+    obtain ⟨dt, ins⟩ := sd
+    have hwf' := step_wf minDens minComp x0 st dt ins h
+    obtain ⟨h1, h2, h3⟩ := ih (step minDens minComp x0 st dt ins) hwf'
+    refine ⟨by simpa [run] using h1, ?_, ?_⟩
+    · intro sl hsl
+      have := h2 sl (by simpa [run] using hsl)
+      rcases this with hold | hnew
+      · simp only [step, List.mem_cons] at hold
+        rcases hold with rfl | hold
+        · right
+          refine ⟨C01.massBalance_balanced minDens minComp x0 st.comp _, ?_⟩
+          intro p hp
+          simp only [massBalance, List.mem_map] at hp
+          obtain ⟨pin, _, rfl⟩ := hp
+          exact C01.volFrac_le_one _ _ _
+        · exact Or.inl hold
+      · exact Or.inr hnew
+    · simp only [run] at h3 ⊢
+      rw [h3]; simp [step]; omega
 
 /-! ### the clock of a precipitation run (instances of the C05 solver theorems)
 
